@@ -6,6 +6,7 @@ import (
 	"fmt"
 	"go/types"
 	"sort"
+	"strconv"
 	"strings"
 )
 
@@ -118,6 +119,7 @@ type pathCtx struct {
 	decided    map[string]bool
 	feasMs     int
 	sqrtCache  map[string]string
+	intOrig    map[string]intOrigin
 }
 
 // control-flow panics used by the engine
@@ -343,6 +345,101 @@ func (pc *pathCtx) concretize(eq func(c int64) string, lo, hi int64) int64 {
 	pc.taken = append(pc.taken, chosen)
 	pc.assert(eq(chosen))
 	return chosen
+}
+
+// concretizeByModel picks concrete values for an integer term by asking the solver for models
+// (at most max distinct values; more is unsupported). parse turns a model value into int64.
+func (pc *pathCtx) concretizeByModel(term string, eq func(c int64) string, max int) int64 {
+	if pc.merge != nil {
+		panic(mergeAbort{"concretize inside summary"})
+	}
+	pc.nsym++
+	if pc.pos < len(pc.prefix) {
+		d := pc.prefix[pc.pos]
+		pc.pos++
+		pc.taken = append(pc.taken, d)
+		pc.assert(eq(d))
+		return d
+	}
+	pc.pos++
+	var found []int64
+	pc.solver.Push()
+	for len(found) <= max {
+		r := pc.solver.Check()
+		if r != "sat" {
+			if r == "unknown" {
+				pc.solver.Pop()
+				panic(unsupported{"concretizeByModel: solver unknown"})
+			}
+			break
+		}
+		vals, err := pc.solver.GetValues([]string{term})
+		if err != nil {
+			pc.solver.Pop()
+			panic(unsupported{"concretizeByModel: " + err.Error()})
+		}
+		v, ok := parseModelInt(vals[term])
+		if !ok {
+			pc.solver.Pop()
+			panic(unsupported{"concretizeByModel: cannot parse " + vals[term]})
+		}
+		found = append(found, v)
+		pc.solver.Send("(assert (not " + eq(v) + "))")
+	}
+	pc.solver.Pop()
+	if len(found) == 0 {
+		panic(pathEnd{"infeasible-concretize"})
+	}
+	if len(found) > max {
+		panic(unsupported{fmt.Sprintf("concretizeByModel: more than %d values", max)})
+	}
+	for _, c := range found[1:] {
+		pc.pending = append(pc.pending, append(append([]int64{}, pc.taken...), c))
+	}
+	pc.taken = append(pc.taken, found[0])
+	pc.assert(eq(found[0]))
+	return found[0]
+}
+
+// tryConcretizeByModel is concretizeByModel that reports failure (too many values) instead of
+// aborting; the decision log records -1 for "not concretized".
+func (pc *pathCtx) tryConcretizeByModel(term string, eq func(c int64) string, max int) (v int64, ok bool) {
+	if pc.pos < len(pc.prefix) {
+		if pc.prefix[pc.pos] == -1 {
+			pc.pos++
+			pc.taken = append(pc.taken, -1)
+			return 0, false
+		}
+		return pc.concretizeByModel(term, eq, max), true
+	}
+	defer func() {
+		if r := recover(); r != nil {
+			if u, isU := r.(unsupported); isU && strings.HasPrefix(u.what, "concretizeByModel: more than") {
+				pc.taken = append(pc.taken, -1)
+				v, ok = 0, false
+				return
+			}
+			panic(r)
+		}
+	}()
+	return pc.concretizeByModel(term, eq, max), true
+}
+
+func parseModelInt(s string) (int64, bool) {
+	s = strings.TrimSpace(s)
+	switch {
+	case strings.HasPrefix(s, "#x"):
+		u, err := strconv.ParseUint(s[2:], 16, 64)
+		return int64(u), err == nil
+	case strings.HasPrefix(s, "#b"):
+		u, err := strconv.ParseUint(s[2:], 2, 64)
+		return int64(u), err == nil
+	case strings.HasPrefix(s, "(- "):
+		v, err := strconv.ParseInt(strings.TrimSuffix(strings.TrimSpace(s[3:]), ")"), 10, 64)
+		return -v, err == nil
+	}
+	v, err := strconv.ParseInt(s, 10, 64)
+	return v, err == nil
 }
 
 func (pc *pathCtx) model() map[string]string {
